@@ -53,6 +53,7 @@ PROPS["C11"] = dict(
 )
 
 PROPS["C13"] = dict(
+    bounded_native=[dict(unit="closure_scope", bound="13 scripted programs over the five closure-taking functions", functions=["stdlib for_each/filter/map_keys/map_values/replace_with loops", "Builder::compile_closure"], text="the iteration loops of the closure-taking stdlib functions and the compile-time scoping are out of reach: closure parameters are restored / not visible afterwards on the scripted programs")],
     level="proof",
     text="closure parameter scoping: the four real Runner methods, insert, cleanup and ident, extracted and verified by Verus against a ghost variable store; every exit path (Ok, error, return)",
     verus=["v_closure_runner"],
@@ -76,6 +77,7 @@ INTERP_NOT_COVERED = ["stdlib function bodies that evaluate their arguments (eac
                       "Query, Variable, Literal, Noop leaf nodes (they evaluate no children)", "Block scoping of local variables"]
 
 PROPS["C06"] = dict(
+    bounded_native=[dict(unit="ctl_programs", bound="48 scripted programs", functions=["stdlib closure functions", "Compiler"], text="end-to-end stand-in for the parts the node contracts do not cover (stdlib iteration loops, compilation): return/abort/short-circuit behave as specified on the scripted programs")],
     level="proof",
     text="`return` cannot be intercepted: Ctl contract on every interpreter node that evaluates children (real bodies extracted, Verus), the From<ValueError> conversion, the closure Runner (return = iteration value), Return::resolve raises exactly the value",
     verus=["v_nodes", "v_op_resolve", "v_value_error_from", "v_closure_runner", "v_target_ops"],
@@ -86,6 +88,7 @@ PROPS["C06"] = dict(
     technique="contract-based deductive verification (Verus on mechanically extracted real bodies; Kani for the try_or callee contract)",
 )
 PROPS["C07"] = dict(
+    bounded_native=[dict(unit="ctl_programs", bound="48 scripted programs", functions=["stdlib closure functions", "Compiler"], text="end-to-end stand-in for the parts the node contracts do not cover (stdlib iteration loops, compilation): return/abort/short-circuit behave as specified on the scripted programs")],
     level="proof",
     text="`abort` cannot be intercepted: Ctl contract on every interpreter node that evaluates children (real bodies extracted, Verus), the From<ValueError> conversion, the closure Runner, Abort::resolve raises the abort outcome",
     verus=["v_nodes", "v_op_resolve", "v_value_error_from", "v_closure_runner"],
@@ -117,14 +120,15 @@ PROPS["C09"] = dict(
 )
 
 PROPS["C18"] = dict(
+    bounded_native=[dict(unit="crud_paths", bound="6 nested values x 56 paths of <= 2 segments over {a, b, d, [0], [1], [-1], [-3]}, with and without pruning", functions=["value::crud::insert", "value::crud::remove", "Value::get/insert/remove"], text="the recursive, trait-generic crud::insert / crud::remove (polymorphic recursion over ValueCollection, BTreeMap) are out of Verus' and CBMC's reach: insert-then-get, remove-returns-get, missing-path removal changes nothing, sibling frame hold on the bounded domain")],
     level="proof",
     text="get/insert/remove laws for array elements: array_index and Vec<Value>::{get_value,insert_value,remove_value} (real bodies, Verus, unbounded lengths, both padding loops with invariants and termination) against whole-sequence specs; the C18 laws are lemmas over those specs",
-    verus=["v_crud_vec"],
+    verus=["v_crud_vec", "v_crud_get"],
     kani=[],
     trusted=["verus prelude crud.rs: abstract Value; spec functions spec_index/spec_get/spec_insert/spec_remove are the reading of the property for arrays (non-negative index: positions from the front, padding null; negative index: positions from the back)",
              "std contracts: mem::replace (assume_specification), vstd Vec::push/insert/remove/index specs",
              "preconditions: key > isize::MIN and len + |key| < isize::MAX (their complement is the memory-exhaustion case C04 excludes)"],
-    not_covered=["recursive crud::{insert,get,remove} over multi-segment paths and ObjectMap delegation to BTreeMap (std)", "pruning on removal", "quoted-field path segments (parser, C20)"],
+    not_covered=["recursive crud::{insert,remove} over multi-segment paths are only covered by the bounded native stand-in crud_paths (polymorphic recursion over the ValueCollection trait); crud::get is proved (v_crud_get)", "ObjectMap delegation to BTreeMap (std)", "quoted-field path segments (parser, C20)"],
     technique="contract-based deductive verification (Verus on mechanically extracted real bodies, loop invariants + decreases)",
 )
 
@@ -212,6 +216,7 @@ PROPS["C12"] = dict(
 )
 
 PROPS["C16"] = dict(
+    bounded_native=[dict(unit="reported_paths", bound="11 scripted programs run against a recording Target", functions=["Compiler (dispatch over the whole AST)"], text="the compiler's dispatch from AST nodes to compile_query/compile_assignment is out of reach: every recorded runtime read/write is covered by a reported path on the scripted programs")],
     level="proof",
     text="reported target queries/assignments: Compiler::compile_query reports every external query it builds with exactly the runtime prefix+path; Assignment::targets lists every target written; at runtime each access site (Query::resolve, Target::insert, del, exists, unnest) touches exactly its own path (or the root of its prefix) - so every runtime location is equal to, or a descendant/ancestor of, a reported path. Verus on extracted real bodies + frame scan",
     verus=["v_reported_paths", "v_target_ops"],
